@@ -3,8 +3,8 @@ package main
 import (
 	"fmt"
 	"go/token"
-	"os"
 	"go/types"
+	"os"
 	"reflect"
 	"sort"
 	"strings"
@@ -639,12 +639,31 @@ func c12(r *Report) {
 					}
 				}
 			}
+			// the branch is decided by the condition evaluated on this message, and by nothing else
+			// (not by a decision remembered from the other side of the exchange)
+			pure := len(es) > 0
+			for _, e := range es {
+				for _, l := range resolveAll(e.If.Cond) {
+					for {
+						u, isU := l.(*ssa.UnOp)
+						if !isU || u.Op != token.NOT {
+							break
+						}
+						l = u.X
+					}
+					if l != ssa.Value(match) {
+						pure = false
+					}
+				}
+			}
+			r.Decide("flow", "(*M/filter.Filter)."+side.mod+": the branch is chosen by "+side.match+" on this message alone", pure, "every value of the branch condition is the result of "+side.match, "the branch condition can also take a value that does not come from evaluating the condition on this message (a cached or remembered decision): a response is sent down the branch its request selected although its own headers select the other", f.Pos())
 			r.Decide("path", "(*M/filter.Filter)."+side.mod+": the modifier set by "+side.tSetter+" runs on the matching edge", okT, "field "+tField.Name()+" invoked on match==true", "the true-branch modifier is not the one invoked when the condition holds", f.Pos())
 			r.Decide("path", "(*M/filter.Filter)."+side.mod+": the modifier set by "+side.fSetter+" runs on the non-matching edge", okF, "field "+fField.Name()+" invoked on match==false", "the else-branch modifier is not the one invoked when the condition does not hold", f.Pos())
 		}
 	})
 
 	r.Guard("C12.R6", "a FIFO group applies children in listed order; the first error stops it unless it aggregates, then all run and every error is added once", func() {
+		multiErrorOnlyGrows(r)
 		// children enter a group through its Add methods, one node each: a parser that
 		// splices another group's children into the list changes whose error policy
 		// they run under
@@ -1035,4 +1054,64 @@ func forwardRangeOver(w *World, v ssa.Value, field string) bool {
 		}
 	}
 	return false
+}
+
+// multiErrorOnlyGrows: outside its constructor the error list of a MultiError
+// is only ever appended to: every store to errs is the result of an append
+// whose first operand is the list itself. A re-slice (a cap on the number of
+// errors kept) loses failures. Shared by C12.R6 and C13.R2.
+func multiErrorOnlyGrows(r *Report) {
+	w := r.W
+	me := w.Named("", "MultiError")
+	if me == nil {
+		r.Undecided("M.MultiError", "UNRESOLVED")
+		return
+	}
+	n := 0
+	for _, f := range w.Funcs("") {
+		if f.Signature.Recv() == nil || namedOf(f.Signature.Recv().Type()) != "MultiError" {
+			continue
+		}
+		for _, in := range instrs(f) {
+			st, isSt := in.(*ssa.Store)
+			if !isSt {
+				continue
+			}
+			fa, isFa := st.Addr.(*ssa.FieldAddr)
+			if !isFa || fieldObj(fa).Name() != "errs" {
+				continue
+			}
+			n++
+			grows := true
+			for _, l := range resolveAll(st.Val) {
+				c, isC := l.(*ssa.Call)
+				if !isC {
+					grows = false
+					continue
+				}
+				if bi, isB := c.Call.Value.(*ssa.Builtin); !isB || bi.Name() != "append" {
+					grows = false
+					continue
+				}
+				base := false
+				for _, b := range resolveAll(c.Call.Args[0]) {
+					if ld, isLd := b.(*ssa.UnOp); isLd {
+						if fb, isFb := ld.X.(*ssa.FieldAddr); isFb && fieldObj(fb).Name() == "errs" {
+							base = true
+						}
+					}
+					if isCallValue(b, "append") {
+						base = true
+					}
+				}
+				if !base {
+					grows = false
+				}
+			}
+			r.Touch(f)
+			r.Sites++
+			r.Decide("flow", fmt.Sprintf("%s: store to errs #%d appends to the list", fnName(f), n), grows, "errs = append(errs, ...)", "the error list is replaced by something else than itself plus new errors (re-sliced, capped, rebuilt): errors already recorded, or the ones beyond a cap, are lost from the report", st.Pos())
+		}
+	}
+	r.Decide("flow", "M.MultiError: the error list is written by its methods", n >= 2, fmt.Sprintf("%d stores", n), "no store to errs found in the methods of MultiError", token.NoPos)
 }
